@@ -21,6 +21,9 @@ const scAllKinds = `{"local","local2","use","assign","do","while","if","repeat",
 // scAvoid is the Avoid constant of Scope.tla for the current check (set by the family before scopeRuns).
 var scAvoid = "{}"
 
+// scLight: the family issues several requests per occurrence; its quick tier uses a smaller exhaustive core.
+var scLight = false
+
 func scCfg(names string, maxItems, maxDepth, maxFiles int, kinds string, emitMin int, next string, invs string) string {
 	return fmt.Sprintf(`CONSTANTS
   Avoid = `+scAvoid+`
@@ -275,10 +278,20 @@ func checkC05(c *Ctx) {
 // programs up to the item bound, plus simulated deeper programs over two files.
 func scopeRuns(c *Ctx, p *pool.Pool, build func(id int, raw json.RawMessage) *Job, judge func(j *Job, r *proto.Result)) bool {
 	items := 3
+	if scLight && !c.Thorough() {
+		items = 2
+	}
 	if v := os.Getenv("VERIF_ITEMS"); v != "" {
 		fmt.Sscan(v, &items)
 	}
 	invs := "TypeOK IdsFresh IdsUnique BindsPrecede ReadsDeclared Emit"
+	if scLight && !c.Thorough() {
+		// families with several queries per occurrence: three items only over the scoping-relevant forms, one file
+		if !c.streamRun("bfs3_core", tlc.Run{Module: "Scope", Workers: 8, Timeout: 30 * time.Minute,
+			Cfg: scCfg(`{"a","b"}`, 3, 3, 1, `{"local","use","assign","do","repeat","fornum","lfunc","lefunc","gfunc"}`, 3, "Next", "Emit")}, p, 8, build, judge) {
+			return false
+		}
+	}
 	if !c.streamRun("bfs", tlc.Run{Module: "Scope", Workers: 8, Timeout: 30 * time.Minute,
 		Cfg: scCfg(`{"a","b"}`, items, 3, 2, scAllKinds, 1, "Next", invs)}, p, 8, build, judge) {
 		return false
